@@ -231,3 +231,51 @@ pub fn decode_plain(bytes: &[u8]) -> Option<(u16, u32, bool)> {
 pub fn sessions(matter: &Matter<'_>) -> Vec<SessionSnapshot> {
     matter.with_state(|s| s.verif_sessions().verif_snapshots().collect())
 }
+
+/// `StatusReport(Success, CloseSession)` as the peer of a session sends it on an exchange the
+/// receiver initiated: secured with `key` (the key the receiver decrypts with; `src_node` = the
+/// sender's node id for the nonce), or unsecured (`key` = None, `dst_node` = the ephemeral
+/// initiator node id of the receiver's unsecured session).
+pub fn craft_close_session(
+    key: Option<&[u8; 16]>,
+    src_node: u64,
+    dst_node: Option<u64>,
+    sess_id: u16,
+    ctr: u32,
+    exch_id: u16,
+) -> Option<Vec<u8>> {
+    use rs_matter::sc::{GeneralCode, OpCode, SCStatusCodes, StatusReport, PROTO_ID_SECURE_CHANNEL};
+    use rs_matter::utils::storage::WriteBuf;
+    let mut hdr = PacketHdr::new();
+    hdr.plain.sess_id = sess_id;
+    hdr.plain.ctr = ctr;
+    if key.is_none() {
+        hdr.plain.set_dst_unicast_nodeid(dst_node);
+    }
+    hdr.proto.exch_id = exch_id;
+    hdr.proto.unset_initiator();
+    hdr.proto.unset_reliable();
+    hdr.proto.proto_id = PROTO_ID_SECURE_CHANNEL;
+    hdr.proto.proto_opcode = OpCode::StatusReport as u8;
+    let mut status_buf = [0u8; 16];
+    let body = {
+        let mut wb = WriteBuf::new(&mut status_buf);
+        StatusReport {
+            general_code: GeneralCode::Success,
+            proto_id: PROTO_ID_SECURE_CHANNEL as u32,
+            proto_code: SCStatusCodes::CloseSession as u16,
+            proto_data: &[],
+        }
+        .write(&mut wb)
+        .ok()?;
+        wb.as_slice().to_vec()
+    };
+    let mut buf = vec![0u8; 128];
+    let reserve = PacketHdr::HDR_RESERVE;
+    let end = reserve + body.len();
+    buf[reserve..end].copy_from_slice(&body);
+    let crypto = mk_crypto(1);
+    let mut wb = WriteBuf::new_with(&mut buf, reserve, end);
+    hdr.encode(&crypto, key.map(|k| CanonAeadKeyRef::new(k)), src_node, &mut wb).ok()?;
+    Some(wb.as_slice().to_vec())
+}
